@@ -106,13 +106,38 @@ structure FnSig where
   isUnsafe : Bool
   deriving DecidableEq, Repr, Inhabited
 
+/-- The self type of an impl in `interface/*.rs` (and the four containers). Enumerations rather
+than strings so that `decide` over the regenerated tables reduces in the kernel. -/
+inductive Wrapper where
+  | box | refMut | ref | threadedRef
+  | rodeo | threaded | reader | resolver
+  | other (s : String)
+  deriving DecidableEq, Repr, Inhabited
+
+inductive Method where
+  | getOrIntern | tryGetOrIntern | getOrInternStatic | tryGetOrInternStatic
+  | get | contains
+  | resolve | tryResolve | resolveUnchecked | containsKey | len | isEmpty
+  | intoReader | intoResolver | intoReaderBoxed | intoResolverBoxed
+  | other (s : String)
+  deriving DecidableEq, Repr, Inhabited
+
+inductive CalleeKind where
+  | deref                       -- `(**self).m(..)`
+  | deref1                      -- `(*self).m(..)`
+  | self_                       -- `self.m(..)`
+  | ufcsTrait                   -- `<T as Trait<K>>::m(self, ..)` / `I::m(self, ..)` with `I` a type parameter
+  | inherentUfcs (w : Wrapper)  -- `Type::m(self, ..)` / `Type::m(*self, ..)` on a concrete type
+  | other
+  deriving DecidableEq, Repr, Inhabited
+
 /-- One forwarding method of a wrapper impl in `interface/*.rs`. -/
 structure Forward where
-  wrapper : String             -- "Box" | "&mut" | "&" | "&ThreadedRodeo" | "Rodeo" | …
+  wrapper : Wrapper
   trait_ : String
-  method : String
-  callee : String              -- name of the method the body calls
-  calleeKind : String          -- "deref" ((**self).m), "ufcs" (<T as Tr>::m / Ty::m), "self" (self.m), "other"
+  method : Method
+  callee : Method
+  calleeKind : CalleeKind
   deriving DecidableEq, Repr, Inhabited
 
 /-- Shape of a `PartialEq` impl body. -/
@@ -123,8 +148,8 @@ inductive EqShape where
   deriving DecidableEq, Repr, Inhabited
 
 structure EqImpl where
-  lhs : String
-  rhs : String
+  lhs : Wrapper
+  rhs : Wrapper
   shape : EqShape
   deriving DecidableEq, Repr, Inhabited
 
